@@ -23,7 +23,7 @@ fn check(ctx: &mut Ctx, kind: &str, what: &str, bytes: &[u8]) {
         serde_json::json!({"kind": kind, "what": what, "msg_hex": hex::encode(bytes)}));
 }
 
-fn retrieval_configs(ctx: &mut Ctx) -> Vec<(String, Option<NonEmptyVec<DeviceRetrievalMethod>>, Option<ServerRetrievalMethods>)> {
+pub fn retrieval_configs(ctx: &mut Ctx) -> Vec<(String, Option<NonEmptyVec<DeviceRetrievalMethod>>, Option<ServerRetrievalMethods>)> {
     let uuid = |r: &mut rand_chacha::ChaCha8Rng| Value::Bytes((0..16).map(|_| r.gen()).collect());
     let rng = &mut ctx.rng;
     let mut methods: Vec<(String, Value)> = vec![];
